@@ -161,6 +161,8 @@ def bfs_schedules(specdir, module, cfg, scr, timeout=600):
             seen.add(h)
             behaviours.append(json.loads(js))
     log("[sweep] %s/%s: %d behaviours" % (module, cfg, len(behaviours)))
+    c = parse_counts(out) or (0, 0)
+    bfs_schedules.last = dict(module=module, cfg=cfg, generated=c[0], distinct=c[1], wall_s=round(dt, 1), behaviours=len(behaviours))
     return behaviours
 
 
